@@ -87,10 +87,12 @@ func genMigFile(rng *rand.Rand, pkg string) (legacy, fresh string) {
 		marker("", "required")
 	}
 	w("type T struct {" + nl)
-	for _, f := range migStructFields {
-		if rng.Intn(3) == 0 {
-			continue
+	emitted := 0
+	for fi, f := range migStructFields {
+		if rng.Intn(3) == 0 && !(emitted == 0 && fi == len(migStructFields)-1) {
+			continue // (the last field is kept when every other one was skipped: a struct without markers generates nothing)
 		}
+		emitted++
 		indent := []string{"\t", "    ", "\t\t", " \t", ""}[rng.Intn(5)]
 		if rng.Intn(4) == 0 {
 			w(indent + "// " + strings.Fields(f)[0] + " is documented; // +govalid:required is mentioned in prose" + nl)
